@@ -75,9 +75,35 @@ def removal_rules(fx, rep):
             who = "writer" if E.mentions_field(ce.expr, "data_writer_list") else ("reader" if E.mentions_field(ce.expr, "data_reader_list") else
                   ("cft" if (E.mentions_field(ce.expr, "content_filtered_topic_list") or E.mentions_field(ce.expr, "related_topic_name")) else "?"))
             uses.append((who, sb, ce))
+    # the same test written as `list.iter().any(|x| x.topic_name == name)`: the decision is the switch on the result of any()
+    from rules.common import closure_bodies_in
+    from vplib.facts import Place
+    any_uses = []
+    for sb, ce in tf.ces.items():
+        if ce.true_target is None:
+            continue
+        e = E.strip_casts(ce.expr)
+        tt = ce.true_target
+        while e[0] == "un" and e[1] == "Not":
+            e = E.strip_casts(e[2])
+            tt = ce.false_target if tt == ce.true_target else ce.true_target
+        if not E.is_call(e, "Iterator::any"):
+            continue
+        cmp_topic = False
+        for cb in closure_bodies_in(fx, tf, e):
+            kf = FnCtx(cb)
+            cc = cmp_norm(E.strip_casts(kf.eb.place(Place([0, []]))))
+            if cc and cc[0] == "Eq" and E.mentions_field(cc[1], "topic_name") and E.mentions_field(cc[2], "topic_name"):
+                cmp_topic = True
+        if cmp_topic:
+            cbs = closure_bodies_in(fx, tf, e)
+            who = "writer" if (E.mentions_field(e, "data_writer_list") or any(cb.touches_field(None, "data_writer_list") for cb in cbs)) else (
+                "reader" if (E.mentions_field(e, "data_reader_list") or any(cb.touches_field(None, "data_reader_list") for cb in cbs)) else "?")
+            any_uses.append((who, sb, tt))
     for who in ("writer", "reader"):
-        u = [(sb, ce) for w, sb, ce in uses if w == who]
-        addt("R36a", "topic in use by a data %s cannot be deleted" % who, bool(u) and all(not any(r in tf.mir.reachable(ce.true_target) for r in rem) for sb, ce in u),
+        u = [(sb, ce.true_target) for w, sb, ce in uses if w == who] + [(sb, tt) for w, sb, tt in any_uses if w == who]
+        # (reachability that follows a bool the verdict may be stored in before it is tested)
+        addt("R36a", "topic in use by a data %s cannot be deleted" % who, bool(u) and all(not tf.reach_avoiding(rem, lambda e2, o2, c2=None: False, start=tt) for sb, tt in u),
              "no topic_name comparison against %ss leading away from the removal" % who)
     # the in-use test must look at the *related* topic of each content-filtered topic (its own topic_name is a different name)
     cft = tf.body.touches_field(None, "content_filtered_topic_list") and \
